@@ -119,7 +119,7 @@ for p in props:
           "quick_cmd": f"./check {p} --tier quick",
           "thorough_cmd": f"./check {p} --tier thorough",
           "evidence_file": f"evidence/{p}.json",
-          "replay_cmd_template": "cat {path}",
+          "replay_cmd_template": "bin/govc replay {path}",
           "engine": "govc",
           "level_claimed": {"category": "proof", "text": c["text"], "design_ref": c["ref"]},
           "level_note": c["note"],
